@@ -880,7 +880,7 @@ func C16() kit.Engine {
 		Id:  "C16",
 		New: func(st *kit.Stats) kit.SeqSim { return &c16{st: st} },
 		Desc: kit.Description{
-			Rule: "one run = one drawn block (0..40 transactions, some outputs with token data) or transaction, built through a drawn constructor (from message, bytes, reader under a drawn benign fault plan, message+bytes), then a drawn history of accessor calls (indices incl. MinInt64, -1, n, n+1, MaxInt64), interleaved with constructions from torn readers (early EOF / injected error / error with data at a drawn offset), and a final sweep calling every accessor twice; non-trivial = the sweep was reached after at least three accessor calls including a transaction accessor, or a reader fault fired; distinct = distinct FNV-64 signature of the executed op list",
+			Rule: "one run = up to three block wrappers alive side by side (blocks of 0..40 or 252..300 transactions, token data, long scripts; also two wrappers over one message and two blocks sharing transaction objects) or one transaction, built through drawn constructors (message, bytes, message+bytes, simulated reader under a benign fault plan, reused bytes.Buffer, bytes.Reader over an overwritten slice / at an offset, two blocks from one stream, trailing bytes), then a drawn history of accessor calls on any wrapper (indices incl. MinInt64, -1, n, n+1, MaxInt64), interleaved with constructions from torn readers (early EOF / injected error / error with data at a drawn offset) and from readers reporting one transient error with data, and a final sweep calling every accessor twice on every wrapper; non-trivial = the sweep was reached after at least three accessor calls including a transaction accessor, or a reader fault fired; distinct = distinct FNV-64 signature of the executed op list",
 			RealVsStub: map[string]string{
 				"bchutil.Block, bchutil.Tx and all constructors": "real (from /repo working tree)",
 				"bchd/wire (de)serialisation":                    "real dependency; also used, on an independent parse, for the fresh recomputation",
